@@ -158,6 +158,37 @@ type clientStreamWrapper struct {
 	grpc.ClientStream
 }
 
+// The wrapper's finalizer cancels the call, so the wrapper must stay reachable
+// while one of its methods is running: once a call has been forwarded to the
+// embedded stream nothing else may refer to the wrapper (e.g. when a blocking
+// RecvMsg is the caller's last use of the stream), and a GC cycle would then
+// cancel the call under the caller's feet.
+
+func (w *clientStreamWrapper) Header() (metadata.MD, error) {
+	defer runtime.KeepAlive(w)
+	return w.ClientStream.Header()
+}
+
+func (w *clientStreamWrapper) Trailer() metadata.MD {
+	defer runtime.KeepAlive(w)
+	return w.ClientStream.Trailer()
+}
+
+func (w *clientStreamWrapper) CloseSend() error {
+	defer runtime.KeepAlive(w)
+	return w.ClientStream.CloseSend()
+}
+
+func (w *clientStreamWrapper) SendMsg(m interface{}) error {
+	defer runtime.KeepAlive(w)
+	return w.ClientStream.SendMsg(m)
+}
+
+func (w *clientStreamWrapper) RecvMsg(m interface{}) error {
+	defer runtime.KeepAlive(w)
+	return w.ClientStream.RecvMsg(m)
+}
+
 func getPeer(baseUrl *url.URL, tls *tls.ConnectionState) *peer.Peer {
 	hostPort := baseUrl.Host
 	if !strings.Contains(hostPort, ":") {
